@@ -24,11 +24,16 @@ ASSUMPTIONS = ["`random_reference` to just_once rows is covered by C10; row-valu
 W = dict(once=0.75, nick=0.6, ref=0.3, formula=0.4, nested=0.06, friend=0.3, fwd=0.15, var_stmt=0.15, randref=0.1)
 
 
-def gen_case(rng):
+DIRECTED6 = [S.stream_once_cluster, S.stream_once_hidden, S.stream_randref_nicks, S.stream_once_cluster_randref, S.stream_once_cluster_randref, S.stream_once_same_table_nick_order, S.stream_once_same_table_nick_order, S.stream_history_rows_hold_once_refs,
+                                S.stream_once_nick_like_once_table, S.stream_once_nick_like_once_table, S.stream_randref_hidden_child, S.stream_once_idle_first]
+
+
+def gen_case(rng, stream=None):
     from .c04 import row_valued_in_once
-    if rng.random() < 0.25:      # directed streams (DESIGN.md 11.4)
-        r, feats = rng.choice([S.stream_once_cluster, S.stream_once_hidden, S.stream_randref_nicks, S.stream_once_cluster_randref, S.stream_once_cluster_randref, S.stream_once_same_table_nick_order, S.stream_once_same_table_nick_order, S.stream_history_rows_hold_once_refs,
-                                S.stream_once_nick_like_once_table, S.stream_once_nick_like_once_table, S.stream_randref_hidden_child])(rng)
+    if stream is not None:
+        r, feats = stream(rng)
+    elif rng.random() < 0.25:      # directed streams (DESIGN.md 11.4)
+        r, feats = rng.choice(DIRECTED6)(rng)
     else:
         for _ in range(50):
             r, feats = S.gen_recipe(rng, W)
@@ -49,7 +54,14 @@ def gen_case(rng):
 
 
 def generate(rng, tier):
-    return [gen_case(rng) for _ in range(260 if tier == "quick" else 7000)]
+    import random
+    cases = [gen_case(rng) for _ in range(260 if tier == "quick" else 7000)]
+    # a fixed share per directed stream (own rng; see harness/c02.py generate)
+    rng2 = random.Random(rng.getrandbits(48) ^ 0xC06)
+    for stream in sorted(set(DIRECTED6), key=lambda f: f.__name__):
+        for _ in range(8 if tier == "quick" else 100):
+            cases.append(gen_case(rng2, stream))
+    return cases
 
 
 def run_impl(case):
